@@ -174,6 +174,54 @@ func Run(r *fw.Run) {
 			}
 	})
 	sort.Strings(pool)
+
+	// (a2) byte sweep: every byte value (and a few multi-byte sequences) in every kind of position of
+	// otherwise valid versions - the small alphabet above has one representative per character class only
+	{
+		l := fw.NewLocal()
+		slots := [][2]string{
+			{"", "1.2.3"}, {"v", ".2.3"}, {"v1", ".2.3"}, {"v1.", ".3"}, {"v1.2", ""}, {"v1.2.", ""}, {"v1.2.3", ""},
+			{"v1.2.3-", ""}, {"v1.2.3-a", ""}, {"v1.2.3-a", "b"}, {"v1.2.3-a.", ""}, {"v1.2.3-1", ""}, {"v1.2.3-", ".b"},
+			{"v1.2.3+", ""}, {"v1.2.3+a", ""}, {"v1.2.3+a", ".b"}, {"v1.2.3-a+", ""}, {"v1.2.3-a+b", "c"}, {"v1", ""}, {"v1.2", "+a"},
+		}
+		var fills []string
+		for b := 0; b < 256; b++ {
+			fills = append(fills, string([]byte{byte(b)}))
+		}
+		fills = append(fills, "é", "\u212a", "\ufffd", "\u00a0", "\u2028", "\xe2\x82", "١")
+		r.Bounds["byte_sweep"] = fmt.Sprintf("%d slots x (256 byte values + %d multi-byte fills)", len(slots), len(fills)-256)
+		var swept []string
+		for _, sl := range slots {
+			for _, f := range fills {
+				s := sl[0] + f + sl[1]
+				swept = append(swept, s)
+				l.States++
+				l.Transitions++
+				l.Execs++
+				msg, valid := unary(s)
+				if valid {
+					l.Nontrivial++
+					l.Outcomes["unary:valid"]++
+				} else {
+					l.Outcomes["unary:invalid"]++
+				}
+				if msg != "" {
+					r.Violation("unary:"+strconv.QuoteToASCII(s), msg, caseT{"unary", q(s)})
+				}
+			}
+		}
+		// Compare of every swept string against a few fixed versions must agree with the reference too
+		for _, s := range swept {
+			for _, o := range []string{"v1.2.3", "v1.2.3-a", "bad", "v0.0.0-0", "v1.2.3+a"} {
+				l.Transitions++
+				l.Execs++
+				if msg := pair(s, o); msg != "" {
+					r.Violation("pair:"+strconv.QuoteToASCII(s)+","+strconv.QuoteToASCII(o), msg, caseT{"pair", q(s, o)})
+				}
+			}
+		}
+		r.Merge(l)
+	}
 	r.Sample(map[string]any{"kind": "unary", "examples_valid": pool[:min(8, len(pool))]})
 
 	// structured members, unary too
